@@ -29,7 +29,8 @@ CONSTANTS MaxSteps,    \* constructor steps applied to a leaf
 Scalars == {"bool","int","int8","int16","int32","int64","uint","uint8","uint16","uint32","uint64","uintptr",
             "float32","float64","string","bytes"}
 Named   == {"MarshalerV","MarshalerP","TextV","TextP","Time","Number","Raw","Rec","RecMap","MutualA",
-            "UnmarshalerP","TextUnmarshalerP","Empty","PtrField","Scripted"}
+            "UnmarshalerP","TextUnmarshalerP","Empty","PtrField","Scripted",
+            "BothP","BothV"}     \* types with BOTH MarshalJSON and MarshalText (pointer / value receivers): MarshalJSON must win
 AllLeaves == Scalars \cup Named
 
 Simple == {"ptr","slice","array0","array1","array2","map_s","map_i","map_t","iface"}
